@@ -126,13 +126,17 @@ func c13Program(tp c13Type, n int, idx []string, thorough bool) string {
 		sb.WriteString("for k in [b'', b'a', b'ab', b'bc', 97, 0, 255]:\n    _res.append((6, 6, 0, 0, (t(lambda: k in x), t(lambda: k not in x))))\n")
 	}
 	if tp.name == "list" || tp.name == "tuple" {
-		// membership, equality and ordering look at identity before ==: a nan is found in the container that holds it, objects
-		// without an __eq__ of their own (functions) are found by identity, equal numbers of different types are found by ==
+		// membership, equality and ordering look at identity before ==: objects without an __eq__ of their own (functions) are found
+		// by identity, equal numbers of different types are found by ==
 		conv := tp.name
-		sb.WriteString("nan = float('nan')\ndef fobj():\n    pass\ndef gobj():\n    pass\nels = [nan, fobj, None, 1.0, True, 'a', (1, 2), [3], 2**70]\nz = " + conv + "(els)\n")
-		sb.WriteString("for k in els + [float('nan'), gobj, 1, 1.0 + 0, (1, 2), [3], 'b', 0, False, 2**70, 2.0**70, " + conv + "]:\n    _res.append((6, 15, 0, 0, (t(lambda: k in z), t(lambda: k not in z))))\n")
-		sb.WriteString("_res.append((6, 16, 0, 0, (z == z, z != z, z == " + conv + "(els), z != " + conv + "(els), " + conv + "([nan]) == " + conv + "([nan]), " + conv + "([nan]) == " + conv + "([float('nan')]), " +
-			conv + "([fobj]) == " + conv + "([fobj]), " + conv + "([fobj]) == " + conv + "([gobj]), t(lambda: " + conv + "([fobj, 1]) < " + conv + "([fobj, 2])), t(lambda: " + conv + "([nan, 1]) < " + conv + "([nan, 2])), t(lambda: " + conv + "([fobj, 1]) < " + conv + "([gobj, 2])))))\n")
+		sb.WriteString("def fobj():\n    pass\ndef gobj():\n    pass\nels = [fobj, None, 1.0, True, 'a', (1, 2), [3], 2**70]\nz = " + conv + "(els)\n")
+		sb.WriteString("for k in els + [gobj, 1, 1.0 + 0, (1, 2), [3], 'b', 0, False, 2**70, 2.0**70, " + conv + "]:\n    _res.append((6, 15, 0, 0, (t(lambda: k in z), t(lambda: k not in z))))\n")
+		sb.WriteString("_res.append((6, 16, 0, 0, (z == z, z != z, z == " + conv + "(els), z != " + conv + "(els), " +
+			conv + "([fobj]) == " + conv + "([fobj]), " + conv + "([fobj]) == " + conv + "([gobj]), t(lambda: " + conv + "([fobj, 1]) < " + conv + "([fobj, 2])), t(lambda: " + conv + "([fobj, 1]) < " + conv + "([gobj, 2])))))\n")
+		if c13NanOn {
+			// ... and a nan, which is not equal to itself, is found in the container that holds it (the same object), not in another
+			sb.WriteString("nan = float('nan')\nzn = " + conv + "([nan, 1])\n_res.append((6, 17, 0, 0, (nan in zn, nan not in zn, float('nan') in zn, zn == zn, zn != zn, zn == " + conv + "([nan, 1]), " + conv + "([nan]) == " + conv + "([float('nan')]), t(lambda: " + conv + "([nan, 1]) < " + conv + "([nan, 2])))))\n")
+		}
 	}
 	if !tp.rng {
 		// in-place operators on slices and on sequences built from an iterator: every other reference keeps its value
@@ -165,6 +169,9 @@ func c13Program(tp c13Type, n int, idx []string, thorough bool) string {
 }
 
 var c13Vars = []string{"_res"}
+
+// c13NanOn: nan identity cases are generated (off while the finding nan-identity is open)
+var c13NanOn = true
 
 var c13OpNames = map[string]string{"i0": "index", "i1": "slice", "i2": "setitem", "i3": "setslice", "i4": "delitem", "i5": "delslice", "i6": "misc", "i7": "slice2"}
 
@@ -233,6 +240,7 @@ func TestC13(t *testing.T) {
 	if _, err := GetOracle(); err != nil {
 		r.Infra("%v", err)
 	}
+	c13NanOn = r.On("c13.identity.nan")
 	lengths := []int{0, 1, 2, 5}
 	if r.Thorough() {
 		lengths = []int{0, 1, 2, 3, 4, 5, 6}
